@@ -151,6 +151,15 @@ def pipeline(ctx, cases_by=None):
         return ctx.finish(LEVEL, RULE)
     mc, layers, simc, sim = tiers(ctx)
     ctx.tlc_mc("Tmpl_MC.tla", ctx.cfg("mc.cfg", "Spec", mc, invariants=LAWS, properties=["Act_Compositional"]), timeout=600)
+    if ctx.tier != "quick":
+        # non-vacuity of the model check: per-action counts and the number of never-evaluated sub-expressions
+        import re
+        rc, out, gen, dist = ctx._tlc("Tmpl_MC.tla", "mc.cfg", ["-coverage", "1"], 900)
+        if "Model checking completed. No error has been found." not in out:
+            raise vlib.Machinery("coverage run of Tmpl_MC did not pass")
+        acts = {m.group(1): int(m.group(2)) for m in re.finditer(r"^<(\w+) line \d+, col \d+ to line \d+, col \d+ of module Tmpl_MC>: (\d+):\d+", out, re.M)}
+        ctx.extra_cov["mc_actions_covered"] = acts
+        ctx.extra_cov["mc_never_evaluated_expressions"] = len(re.findall(r": 0$", out, re.M))
     cases, counts = [], {}
     for name, c in layers.items():
         got = ctx.tlc_gen("Tmpl_MC.tla", ctx.cfg("gen_%s.cfg" % name, "Spec", c, invariants=["Emit"]), name, timeout=1200)
